@@ -532,16 +532,18 @@ func (m *Machine) ForEachK(r string, k byte) string {
 func (m *Machine) Map(r string, fn *Fn) string {
 	var tok string
 	m.Op("map", r, fn.Token(), func() string {
-		tok = m.reg(m.L(r).Map(func(i int, v any) any { return fn.Apply(i, v) }))
-		return tok
+		var log []string
+		tok = m.reg(m.L(r).Map(func(i int, v any) any { log = append(log, itok(i), m.tokVal(v)); return fn.Apply(i, v) }))
+		return tok + " | " + strings.Join(log, " ")
 	})
 	return tok
 }
 func (m *Machine) MapValues(r string, fn *Fn) string {
 	var tok string
 	m.Op("mapvalues", r, fn.Token(), func() string {
-		tok = m.reg(m.L(r).MapValues(func(v any) any { return fn.Apply(nil, v) }))
-		return tok
+		var log []any
+		tok = m.reg(m.L(r).MapValues(func(v any) any { log = append(log, v); return fn.Apply(nil, v) }))
+		return tok + " | " + m.tokVals(log)
 	})
 	return tok
 }
@@ -550,48 +552,55 @@ func (m *Machine) MapK(r string, k byte, fn *Fn) string {
 	m.Op("mapk", r, string(k)+" "+fn.Token(), func() string {
 		l := m.L(r)
 		var res at.List
+		var log []any
 		switch k {
 		case 'o':
-			res = l.MapObjects(func(x at.Object) any { return fn.Apply(nil, x) })
+			res = l.MapObjects(func(x at.Object) any { log = append(log, x); return fn.Apply(nil, x) })
 		case 'l':
-			res = l.MapLists(func(x at.List) any { return fn.Apply(nil, x) })
+			res = l.MapLists(func(x at.List) any { log = append(log, x); return fn.Apply(nil, x) })
 		case 's':
-			res = l.MapStrings(func(x string) any { return fn.Apply(nil, x) })
+			res = l.MapStrings(func(x string) any { log = append(log, x); return fn.Apply(nil, x) })
 		case 'b':
-			res = l.MapBools(func(x bool) any { return fn.Apply(nil, x) })
+			res = l.MapBools(func(x bool) any { log = append(log, x); return fn.Apply(nil, x) })
 		case 'i':
-			res = l.MapInts(func(x int) any { return fn.Apply(nil, x) })
+			res = l.MapInts(func(x int) any { log = append(log, x); return fn.Apply(nil, x) })
 		default:
-			res = l.MapFloats(func(x float64) any { return fn.Apply(nil, x) })
+			res = l.MapFloats(func(x float64) any { log = append(log, x); return fn.Apply(nil, x) })
 		}
 		tok = m.reg(res)
-		return tok
+		return tok + " | " + m.tokVals(log)
 	})
 	return tok
 }
 func (m *Machine) Reduce(r string) string {
 	return m.Op("reduce", r, "hash", func() string {
-		return m.tokVal(m.L(r).Reduce(17, func(acc any, v any) any { return acc.(int)*31 + codeOf(v) }))
+		var log []any
+		res := m.L(r).Reduce(17, func(acc any, v any) any { log = append(log, v); return acc.(int)*31 + codeOf(v) })
+		return m.tokVal(res) + " | " + m.tokVals(log)
 	})
 }
 func (m *Machine) ReduceK(r string, k byte) string {
 	return m.Op("reducek", r, string(k), func() string {
 		l := m.L(r)
+		var log []any
+		var res any
 		switch k {
 		case 's':
-			return m.tokVal(l.ReduceStrings("^", func(acc, v string) string { return acc + "|" + v }))
+			res = l.ReduceStrings("^", func(acc, v string) string { log = append(log, v); return acc + "|" + v })
 		case 'i':
-			return m.tokVal(l.ReduceInts(17, func(acc, v int) int { return acc*31 + v }))
+			res = l.ReduceInts(17, func(acc, v int) int { log = append(log, v); return acc*31 + v })
 		default:
-			return m.tokVal(l.ReduceFloats(1.0, func(acc, v float64) float64 { return acc*0.5 + v }))
+			res = l.ReduceFloats(1.0, func(acc, v float64) float64 { log = append(log, v); return acc*0.5 + v })
 		}
+		return m.tokVal(res) + " | " + m.tokVals(log)
 	})
 }
 func (m *Machine) Filter(r string, p string) string {
 	var tok string
 	m.Op("filter", r, p, func() string {
-		tok = m.reg(m.L(r).Filter(func(v any) bool { return pred(p, v) }))
-		return tok
+		var log []any
+		tok = m.reg(m.L(r).Filter(func(v any) bool { log = append(log, v); return pred(p, v) }))
+		return tok + " | " + m.tokVals(log)
 	})
 	return tok
 }
@@ -600,20 +609,21 @@ func (m *Machine) FilterK(r string, k byte, p string) string {
 	m.Op("filterk", r, string(k)+" "+p, func() string {
 		l := m.L(r)
 		var res at.List
+		var log []any
 		switch k {
 		case 'o':
-			res = l.FilterObjects(func(x at.Object) bool { return pred(p, x) })
+			res = l.FilterObjects(func(x at.Object) bool { log = append(log, x); return pred(p, x) })
 		case 'l':
-			res = l.FilterLists(func(x at.List) bool { return pred(p, x) })
+			res = l.FilterLists(func(x at.List) bool { log = append(log, x); return pred(p, x) })
 		case 's':
-			res = l.FilterStrings(func(x string) bool { return pred(p, x) })
+			res = l.FilterStrings(func(x string) bool { log = append(log, x); return pred(p, x) })
 		case 'i':
-			res = l.FilterInts(func(x int) bool { return pred(p, x) })
+			res = l.FilterInts(func(x int) bool { log = append(log, x); return pred(p, x) })
 		default:
-			res = l.FilterFloats(func(x float64) bool { return pred(p, x) })
+			res = l.FilterFloats(func(x float64) bool { log = append(log, x); return pred(p, x) })
 		}
 		tok = m.reg(res)
-		return tok
+		return tok + " | " + m.tokVals(log)
 	})
 	return tok
 }
@@ -824,16 +834,18 @@ func (m *Machine) OForEachK(r string, k byte) string {
 func (m *Machine) OMap(r string, fn *Fn) string {
 	var tok string
 	m.Op("omap", r, fn.Token(), func() string {
-		tok = m.reg(m.O(r).Map(func(k string, v any) any { return fn.Apply(k, v) }))
-		return tok
+		var log []string
+		tok = m.reg(m.O(r).Map(func(k string, v any) any { log = append(log, "k"+hx(k), m.tokVal(v)); return fn.Apply(k, v) }))
+		return tok + " | " + strings.Join(log, " ")
 	})
 	return tok
 }
 func (m *Machine) OMapValues(r string, fn *Fn) string {
 	var tok string
 	m.Op("omapvalues", r, fn.Token(), func() string {
-		tok = m.reg(m.O(r).MapValues(func(v any) any { return fn.Apply(nil, v) }))
-		return tok
+		var log []any
+		tok = m.reg(m.O(r).MapValues(func(v any) any { log = append(log, v); return fn.Apply(nil, v) }))
+		return tok + " | " + m.tokVals(log)
 	})
 	return tok
 }
@@ -842,22 +854,23 @@ func (m *Machine) OMapK(r string, k byte, fn *Fn) string {
 	m.Op("omapk", r, string(k)+" "+fn.Token(), func() string {
 		o := m.O(r)
 		var res at.Object
+		var log []any
 		switch k {
 		case 'o':
-			res = o.MapObjects(func(x at.Object) any { return fn.Apply(nil, x) })
+			res = o.MapObjects(func(x at.Object) any { log = append(log, x); return fn.Apply(nil, x) })
 		case 'l':
-			res = o.MapLists(func(x at.List) any { return fn.Apply(nil, x) })
+			res = o.MapLists(func(x at.List) any { log = append(log, x); return fn.Apply(nil, x) })
 		case 's':
-			res = o.MapStrings(func(x string) any { return fn.Apply(nil, x) })
+			res = o.MapStrings(func(x string) any { log = append(log, x); return fn.Apply(nil, x) })
 		case 'b':
-			res = o.MapBools(func(x bool) any { return fn.Apply(nil, x) })
+			res = o.MapBools(func(x bool) any { log = append(log, x); return fn.Apply(nil, x) })
 		case 'i':
-			res = o.MapInts(func(x int) any { return fn.Apply(nil, x) })
+			res = o.MapInts(func(x int) any { log = append(log, x); return fn.Apply(nil, x) })
 		default:
-			res = o.MapFloats(func(x float64) any { return fn.Apply(nil, x) })
+			res = o.MapFloats(func(x float64) any { log = append(log, x); return fn.Apply(nil, x) })
 		}
 		tok = m.reg(res)
-		return tok
+		return tok + " | " + m.tokVals(log)
 	})
 	return tok
 }
